@@ -272,6 +272,9 @@ func runObligation(l *loaded, ob Obligation, tier int, seed int64, known map[str
 	}
 	if tier > 0 {
 		to *= 6
+		if to > 2400 {
+			to = 2400 // thorough: at most 40 minutes per obligation (a cap that is hit is reported as INCONCLUSIVE)
+		}
 		if cfg.QueryTimeout == 0 {
 			cfg.QueryTimeout = 120000
 		}
